@@ -21,6 +21,7 @@ from lib import Prop, coq_eval, coq_q, coq_nat, coq_list, load_known, unsome
 import util
 from util import TensorProduct, Hamiltonian, TTNO, TTNS, Node
 from props import c01d          # [ext-C01D] pipeline model tie (BIPARTITE driver) [/ext-C01D]
+from props import c01s          # [ext-C01S] pipeline model tie (SGE driver) [/ext-C01S]
 
 METHODS = ["SGE", "BIPARTITE", "TREE", "BASE"]
 KF_TREE = "C01-tree-coefficients"
@@ -1851,7 +1852,7 @@ class C01(Prop):
                 ttno = TTNO.from_state_diagram(captured["sd"], ham.conversion_dictionary, ham.coeffs_mapping)
             else:
                 # [ext-C01D] BIPARTITE: record the diagram after every combine_subtrees / cut_and_optimise call
-                with spy_state_diagram(captured), c01d.recorder(case, ob):
+                with spy_state_diagram(captured), c01d.recorder(case, ob), c01s.recorder(case, ob):      # [ext-C01S] SGE recorder [/ext-C01S]
                     ttno = TTNO.from_hamiltonian(ham, ttns, finder(case["method"]))
                 # [/ext-C01D]
         except Exception as e:  # noqa
@@ -2010,6 +2011,7 @@ class C01(Prop):
                 f"| None => (false, [], false, false, None, @None canon, false, {shp}) end)")
         vals = c01d.eval_spread(ctx, IMPORTS, exprs, shard=40, scope="nat_scope")      # [str5-C01] expensive blocks spread over the shards
         c01d.run_model(ctx, cases, obs)      # [ext-C01D] model trace vs recorded steps, stored in the observations [/ext-C01D]
+        c01s.run_model(ctx, cases, obs)      # [ext-C01S] the same for method SGE (SD/PipelineSGE.v) [/ext-C01S]
         # per-instance obligations: the exported diagram is well-formed and certified exact
         known = {k["id"] for k in load_known() if k.get("property") == self.id and k.get("status") == "known"}
         n = ok = 0
@@ -2039,6 +2041,16 @@ class C01(Prop):
                 if msg:
                     fails.append(msg)
         # [/ext-C01D]
+        # [ext-C01S] per instance: pipeline_sge_checks before every step of the model's SGE run and the final diagram certified
+        # (hypothesis of C01_pipeline_sge_exact_checked_partial); instances of a recorded finding are not obligations
+        for c, ob in zip(cases, obs):
+            if isinstance(ob, dict) and self._class_of(c) != KF_DUP:
+                cnt, good, msg = c01s.instance_obligation(c, ob, known_refuted=self._known_instance(c, ob) in known)
+                n += int(cnt)
+                ok += int(good)
+                if msg:
+                    fails.append(msg)
+        # [/ext-C01S]
         self._inst = (n, ok, fails[:3])
         return vals
 
@@ -2095,6 +2107,11 @@ class C01(Prop):
         if msg:
             return msg
         # [/ext-C01D]
+        # [ext-C01S] SGE: the model's run (SD/PipelineSGE.v) equals the implementation's after every driver call
+        msg = c01s.compare(case, ob)
+        if msg:
+            return msg
+        # [/ext-C01S]
         if "exception" in ob:
             if case["method"] == "BASE":
                 return f"implementation raised {ob['exception']} where the model builds the BASE diagram"
